@@ -3,6 +3,7 @@ import Agd.Lemmas.ECS
 import Agd.Lemmas.ECSHist
 import Agd.Tie.C05
 import Agd.Model.ECSWire
+import Agd.Lemmas.ECSRefresh
 /-!
 # C05 — client subnets stay private and ECS-dependent answers stay in their region
 
@@ -1388,6 +1389,149 @@ theorem builder_non_ecs_forwards_counterexample :
 example : (⟨1, 10000, 10000⟩ : CacheYAML).valid = true ∧ (⟨1, 10000, 10000⟩ : CacheYAML).kind = .ecs ∧
     (⟨1, 10000, 10000⟩ : CacheYAML).counts = (10000, 10000) := by decide
 
+/-! ## Wave h: `geoip.File.Refresh` racing with `geoip.File.Data` (`Model/ECSRefresh.lean`)
+
+The theorems above take a refresh as one atomic replacement of the GeoIP environment.  The machine
+`Refresh.RF` interleaves the refresher's actions (`lock`, `swap` of the readers, `clear` of the location
+cache, `unlock`) with the two phases of any number of `Data` calls (`get`: cache probe outside the lock;
+`fill`: read lock, readers, `setCaches`). -/
+
+section RefreshRace
+open Refresh
+
+/-- **refresh_race_safe.**  For every refresher program that passes the static criterion `progSafe`
+(after the last point at which the old readers were reachable for a look-up there is a `clear`, and the
+readers end up swapped), every initial content of the location cache, every pair of databases and every
+schedule `evs` of look-up phases and refresher steps: once `Refresh` has returned, every look-up phase
+of every later schedule `evs2` is answered from the NEW databases — a cache hit shows the new
+databases' location of an address of the same /24 resp. /56 block, a miss the new databases' location
+of the address itself. -/
+theorem refresh_race_safe (db : Ver → Fam → Nat → Loc) (prog : List RAct) (hs : progSafe prog = true)
+    (cache0 : LocCache) (evs evs2 : List REv)
+    (hret : (RF.run db true (RF.init prog cache0) evs).1.prog = []) :
+    AllNew db evs2 (RF.run db true (RF.run db true (RF.init prog cache0) evs).1 evs2).2 := by
+  have hz : (prog.foldl Abs.act Abs.init).ver = .new ∧ (prog.foldl Abs.act Abs.init).dirty = false := by
+    unfold progSafe at hs
+    simpa using hs
+  have hset := run_safe db evs (RF.init prog cache0) Abs.init (rinv_init db prog cache0) hz.1 hz.2 hret
+  exact (settled_run db evs2 _ hset).2
+
+/-- **refresh_code_order_safe.**  The order `File.Refresh` has (facts `refresh_order_src`,
+`refresh_readers_src`, `data_lock_order_src`): swap, then clear, both under the write lock. -/
+theorem refresh_code_order_safe (db : Ver → Fam → Nat → Loc) (cache0 : LocCache) (evs evs2 : List REv)
+    (hret : (RF.run db true (RF.init codeProg cache0) evs).1.prog = []) :
+    AllNew db evs2 (RF.run db true (RF.run db true (RF.init codeProg cache0) evs).1 evs2).2 :=
+  refresh_race_safe db codeProg (by decide) cache0 evs evs2 hret
+
+/-- Non-vacuity: a schedule in which `Refresh` returns — a look-up probes the cache and misses, the
+refresher locks and swaps, the look-up's locked part is blocked, the refresher clears and unlocks, the
+look-up completes — and what a later look-up of the same block sees; the criterion accepts the code's
+order and two harmless neighbours (clear before the swap but under the lock; clear after the unlock)
+and rejects the three harmful ones. -/
+example : (RF.run flipDB true (RF.init codeProg (fun _ _ => some ⟨1, 0, 0⟩))
+    [.get .v4 5, .step, .step, .fill .v4 5, .step, .step, .fill .v4 5]).1.prog = [] := by decide
+example : (RF.run flipDB true (RF.run flipDB true (RF.init codeProg (fun _ _ => some ⟨1, 0, 0⟩))
+    [.get .v4 5, .step, .step, .fill .v4 5, .step, .step, .fill .v4 5]).1 [.get .v4 6]).2 = [.hit ⟨2, 0, 0⟩] := by
+  decide
+example : progSafe codeProg = true ∧ progSafe [.lock, .clear, .swap, .unlock] = true ∧
+    progSafe [.lock, .swap, .unlock, .clear] = true ∧ progSafe clearBeforeLockProg = false ∧
+    progSafe noClearProg = false ∧ progSafe [.lock, .swap, .clear] = true ∧
+    progSafe [.lock, .clear, .unlock, .lock, .swap, .unlock] = false := by decide
+
+/-- **refresh_lookup_is_dataCached.**  While the write lock is free, a whole look-up of the machine is
+`dataCached` (the function the block-cache theorems are about) over the readers in place. -/
+theorem refresh_lookup_is_dataCached (db : Ver → Fam → Nat → Loc) (s : RF) (hl : s.locked = false)
+    (f : Fam) (a : Nat) :
+    (s.look db true f a).1.cache = (dataCached (db s.ver) s.cache f a).2 ∧
+      ((s.look db true f a).2 = .hit (dataCached (db s.ver) s.cache f a).1 ∨
+        (s.look db true f a).2 = .loc (dataCached (db s.ver) s.cache f a).1) := by
+  unfold RF.look dataCached
+  cases h : s.cache f (blockOf f a) with
+  | some l => simp
+  | none => simp [RF.ev, hl]; rfl
+
+/-- **refresh_clear_before_swap_counterexample** (the change of wave h).  With the caches cleared
+before the lock is taken, a look-up scheduled between the clearing and the swap stores the OLD
+databases' location in the cleared cache, and a look-up made after `Refresh` has returned is answered
+with it: country 1 although the databases in place say country 2. -/
+theorem refresh_clear_before_swap_counterexample :
+    ¬ ∀ (db : Ver → Fam → Nat → Loc) (cache0 : LocCache) (evs evs2 : List REv),
+      (RF.run db true (RF.init clearBeforeLockProg cache0) evs).1.prog = [] →
+      AllNew db evs2 (RF.run db true (RF.run db true (RF.init clearBeforeLockProg cache0) evs).1 evs2).2 := by
+  intro h
+  have h1 := h flipDB (fun _ _ => none) [.step, .fill .v4 5, .step, .step, .step] [.get .v4 6] (by decide)
+  have hr : (RF.run flipDB true (RF.run flipDB true (RF.init clearBeforeLockProg (fun _ _ => none))
+      [.step, .fill .v4 5, .step, .step, .step]).1 [.get .v4 6]).2 = [.hit ⟨1, 0, 0⟩] := by decide
+  rw [hr] at h1
+  obtain ⟨⟨a', _, h2⟩, _⟩ := h1
+  simp [flipDB] at h2
+
+/-- **refresh_no_clear_counterexample.**  Without the clearing, what was cached before the refresh is
+served after it. -/
+theorem refresh_no_clear_counterexample :
+    ¬ ∀ (db : Ver → Fam → Nat → Loc) (cache0 : LocCache) (evs evs2 : List REv),
+      (RF.run db true (RF.init noClearProg cache0) evs).1.prog = [] →
+      AllNew db evs2 (RF.run db true (RF.run db true (RF.init noClearProg cache0) evs).1 evs2).2 := by
+  intro h
+  have h1 := h flipDB (fun _ _ => none) [.fill .v4 5, .step, .step, .step] [.get .v4 6] (by decide)
+  have hr : (RF.run flipDB true (RF.run flipDB true (RF.init noClearProg (fun _ _ => none))
+      [.fill .v4 5, .step, .step, .step]).1 [.get .v4 6]).2 = [.hit ⟨1, 0, 0⟩] := by decide
+  rw [hr] at h1
+  obtain ⟨⟨a', _, h2⟩, _⟩ := h1
+  simp [flipDB] at h2
+
+/-- **refresh_set_outside_lock_counterexample.**  The read lock of `Data` must cover `setCaches`: if the
+result is stored after the read lock has been released (`atomicSet = false`), a look-up that asked the
+old readers before the refresh can store their answer after it, under the code's own refresher. -/
+theorem refresh_set_outside_lock_counterexample :
+    ¬ ∀ (db : Ver → Fam → Nat → Loc) (cache0 : LocCache) (evs evs2 : List REv),
+      (RF.run db false (RF.init codeProg cache0) evs).1.prog = [] →
+      AllNew db evs2 (RF.run db false (RF.run db false (RF.init codeProg cache0) evs).1 evs2).2 := by
+  intro h
+  have h1 := h flipDB (fun _ _ => none) [.fill .v4 5, .step, .step, .step, .step, .flush 0] [.get .v4 6] (by decide)
+  have hr : (RF.run flipDB false (RF.run flipDB false (RF.init codeProg (fun _ _ => none))
+      [.fill .v4 5, .step, .step, .step, .step, .flush 0]).1 [.get .v4 6]).2 = [.hit ⟨1, 0, 0⟩] := by decide
+  rw [hr] at h1
+  obtain ⟨⟨a', _, h2⟩, _⟩ := h1
+  simp [flipDB] at h2
+
+/-- **failed_refresh_keeps_old.**  A refresh that fails before its critical section (a file cannot be
+read, a scan fails: `Tie/TrC05.refresh_failure_keeps` — no lock, no clear, the `File` returned as it was)
+is the empty program: whatever is scheduled, the old readers stay and every look-up that reaches them
+is answered by them. -/
+theorem failed_refresh_keeps_old (db : Ver → Fam → Nat → Loc) (evs : List REv) :
+    ∀ (s : RF), s.ver = .old → s.prog = [] →
+      (RF.run db true s evs).1.ver = .old ∧ (RF.run db true s evs).1.prog = [] ∧
+      ∀ f a l, (RF.run db true s evs).2.getLast? = some (.loc l) → evs.getLast? = some (.fill f a) →
+        l = db .old f a := by
+  induction evs with
+  | nil => intro s hv hp; simp [RF.run, hv, hp]
+  | cons e es ih =>
+    intro s hv hp
+    have hstep : (s.ev db true e).1.ver = .old ∧ (s.ev db true e).1.prog = [] := by
+      cases e <;> simp only [RF.ev, hp] <;> (try split) <;> simp_all
+    obtain ⟨h1, h2, h3⟩ := ih _ hstep.1 hstep.2
+    refine ⟨by simpa [RF.run] using h1, by simpa [RF.run] using h2, ?_⟩
+    intro f a l hl he
+    cases es with
+    | nil =>
+      simp only [RF.run, List.getLast?_singleton, Option.some.injEq] at hl he
+      subst he
+      simp only [RF.ev] at hl
+      split at hl
+      · cases hl
+      · simp only [if_true, hv] at hl
+        cases hl; rfl
+    | cons e2 es2 =>
+      have hl' : (RF.run db true (s.ev db true e).1 (e2 :: es2)).2.getLast? = some (.loc l) := by
+        simpa [RF.run, List.getLast?_cons_cons] using hl
+      exact h3 f a l hl' (by simpa [List.getLast?_cons_cons] using he)
+
+example : (RF.run flipDB true (RF.init [] (fun _ _ => none)) [.step, .fill .v4 5, .get .v4 6]).2 =
+    [.none, .loc ⟨1, 0, 0⟩, .hit ⟨1, 0, 0⟩] := by decide
+
+end RefreshRace
+
 #print axioms upstream_subnet_private
 #print axioms upstream_noninterference
 #print axioms declined_never_subnet_cache
@@ -1445,6 +1589,13 @@ example : (⟨1, 10000, 10000⟩ : CacheYAML).valid = true ∧ (⟨1, 10000, 100
 #print axioms wire_dropped_iff_unpack
 #print axioms padTake_length
 #print axioms padTake_idem
+#print axioms refresh_race_safe
+#print axioms refresh_code_order_safe
+#print axioms refresh_lookup_is_dataCached
+#print axioms refresh_clear_before_swap_counterexample
+#print axioms refresh_no_clear_counterexample
+#print axioms refresh_set_outside_lock_counterexample
+#print axioms failed_refresh_keeps_old
 
 
 end Agd.ECS
@@ -1486,3 +1637,9 @@ end Agd.ECS
 #print axioms Agd.Tie.TrC05.cache_hit_no_upstream
 #print axioms Agd.Tie.TrC05.upstream_result_processed
 #print axioms Agd.Tie.TrC05.serveDNS_total
+#print axioms Agd.Tie.TrC05.refresh_success_trace
+#print axioms Agd.Tie.TrC05.refresh_locked_section_safe
+#print axioms Agd.Tie.TrC05.refresh_failure_keeps
+#print axioms Agd.Tie.TrC05.data_hit_no_lock
+#print axioms Agd.Tie.TrC05.data_miss_locked
+#print axioms Agd.Tie.TrC05.data_error_unlocks
